@@ -136,6 +136,8 @@ struct Monitor<'a> {
     heap_check_every: usize,
     /// results of calling each function-valued top-level name with fixed arguments, after the previous statement
     probes: BTreeMap<String, Vec<crate::rt::ROut>>,
+    /// "ok" / "err" per statement run so far (a parse error is "err")
+    statuses: Vec<&'static str>,
 }
 
 fn fp(h: &blots_core::heap::Heap, i: usize) -> Option<u64> {
@@ -149,7 +151,7 @@ fn env_map(sess: &Sess) -> BTreeMap<String, Value> {
 impl<'a> Monitor<'a> {
     fn new(sess: &'a Sess) -> Monitor<'a> {
         let inputs = sess.env.get("inputs").map(|v| sess.rval(&v)).unwrap_or(RVal::Null);
-        Monitor { sess, model: BTreeMap::new(), inputs_snapshot: inputs, heap_marks: Vec::new(), steps: 0, heap_check_every: 1, probes: BTreeMap::new() }
+        Monitor { sess, model: BTreeMap::new(), inputs_snapshot: inputs, heap_marks: Vec::new(), steps: 0, heap_check_every: 1, probes: BTreeMap::new(), statuses: Vec::new() }
     }
 
     fn snapshot_heap(&mut self) {
@@ -178,6 +180,7 @@ impl<'a> Monitor<'a> {
             Ok(_) => None,
             Err(_) => None, // parse error: nothing ran
         };
+        self.statuses.push(if matches!(out, Some(Out::Ok(_))) { "ok" } else { "err" });
         let after = env_map(self.sess);
         let case = |extra: serde_json::Value| json!({"history": history, "statement": t.src, "detail": extra});
         // H5: the top-level scope never has a binding replaced, not even for the duration of one statement
@@ -343,7 +346,23 @@ fn same_ignoring_fn_names(a: &RVal, b: &RVal) -> bool {
     a == b
 }
 
+fn is_data(v: &RVal) -> bool {
+    match v {
+        RVal::Num(b) => f64::from_bits(*b).is_finite(),
+        RVal::Str(_) | RVal::Bool(_) | RVal::Null => true,
+        RVal::List(l) => l.iter().all(is_data),
+        RVal::Rec(r) => r.iter().all(|(_, x)| is_data(x)),
+        _ => false,
+    }
+}
+
 fn run_sequence(sink: &mut Sink, seq: &[&Tpl], key: &str) {
+    run_sequence_rec(sink, seq, key, false)
+}
+
+/// `for_repl`: also record the session (statements, ok/err per statement, data-valued bindings at the end) so that the
+/// Python leg can replay it through the real interactive REPL of the CLI under a pseudo-terminal.
+fn run_sequence_rec(sink: &mut Sink, seq: &[&Tpl], key: &str, for_repl: bool) {
     let sess = Sess::new();
     let mut mon = Monitor::new(&sess);
     mon.heap_check_every = if seq.len() > 10 { 7 } else { 1 };
@@ -362,6 +381,14 @@ fn run_sequence(sink: &mut Sink, seq: &[&Tpl], key: &str) {
         bound_names = mon.model.keys().cloned().collect();
     }
     sink.case(key, nontrivial);
+    if for_repl {
+        let bound: Vec<serde_json::Value> = mon
+            .model
+            .iter()
+            .map(|(k, (_, snap))| json!({"name": k, "data": is_data(snap), "value": if is_data(snap) { snap.to_json() } else { serde_json::Value::Null }}))
+            .collect();
+        sink.rec(json!({"t": "rec", "k": "repl-session", "key": key, "stmts": history, "status": mon.statuses, "bound": bound}));
+    }
     if sink.want_sample() && nontrivial && seq.len() >= 3 {
         sink.sample(json!({"session": history, "bound_at_end": mon.model.iter().map(|(k, (_, s))| format!("{} = {}", k, s.show())).collect::<Vec<_>>()}));
     }
@@ -430,7 +457,9 @@ pub fn run(ctx: &Ctx, sink: &mut Sink) {
                 seq.push(&alpha[(c % n as u64) as usize]);
                 c /= n as u64;
             }
-            run_sequence(sink, &seq, &format!("seq|{}|{}", len, code));
+            // a deterministic sample of the sequences is also replayed through the real REPL (Python leg)
+            let for_repl = len >= 2 && code % (if len <= 2 { 13 } else if len == 3 { 331 } else if len == 4 { 16001 } else { 800011 }) == (ctx.seed % 11);
+            run_sequence_rec(sink, &seq, &format!("seq|{}|{}", len, code), for_repl);
         }
     }
     // ---- the same, exhaustively up to length 3, for each value variant of the alphabet
@@ -483,6 +512,6 @@ pub fn run(ctx: &Ctx, sink: &mut Sink) {
         let len = 20 + r.below(181);
         let tpls: Vec<Tpl> = (0..len).map(|_| random_template(&mut r, &names)).collect();
         let refs: Vec<&Tpl> = tpls.iter().collect();
-        run_sequence(sink, &refs, &format!("session|{}", s));
+        run_sequence_rec(sink, &refs, &format!("session|{}", s), s % 25 == 3);
     }
 }
